@@ -69,3 +69,32 @@
         assert!(kib * 1024 >= bytes);
         assert!(kib * 1024 <= bytes + bytes / 8 + 512 * 1024);
     }
+
+    /// C19.props / C03.lzma.hdr: for every in-range (lc,lp,pb) the properties byte is (pb*5+lp)*9+lc <= 224, computed
+    /// without truncation, and the readers' decomposition (pb = p/45, lp = (p%45)/9, lc = p%9) recovers the triple.
+    #[kani::proof]
+    #[kani::unwind(2)]
+    fn c19_props_roundtrip() {
+        let lc: u32 = vk::any();
+        let lp: u32 = vk::any();
+        let pb: u32 = vk::any();
+        vk::assume(lc <= 8 && lp <= 4 && pb <= 4);
+        let o = LZMAOptions { dict_size: 4096, lc, lp, pb, mode: EncodeMode::Fast, nice_len: 32, mf: MFType::HC4, depth_limit: 0, preset_dict: None };
+        let p = o.get_props();
+        assert!(p as u32 == (pb * 5 + lp) * 9 + lc && p <= 224);
+        assert!((p / 45) as u32 == pb && ((p % 45) / 9) as u32 == lp && (p % 9) as u32 == lc);
+    }
+    /// C18.clamp / C19: presets 0..9 produce in-range options; dictionary sizes are powers of two >= 256 KiB
+    #[kani::proof]
+    #[kani::unwind(2)]
+    fn c19_presets_in_range() {
+        let preset: u32 = vk::any();
+        let o = LZMAOptions::with_preset(preset);
+        assert!(o.lc + o.lp <= 4 && o.pb <= 4);
+        assert!(o.dict_size >= 1 << 18 && o.dict_size <= 1 << 26 && o.dict_size & (o.dict_size - 1) == 0);
+        assert!(o.nice_len >= LZMAOptions::NICE_LEN_MIN && o.nice_len <= LZMAOptions::NICE_LEN_MAX);
+        assert!(o.depth_limit >= 0 && o.preset_dict.is_none());
+        assert!(get_extra_size_before(o.dict_size) == 0);
+        let d: u32 = vk::any();
+        assert!(get_extra_size_before(d) as u64 + d as u64 >= 65536 || d >= 65536);
+    }
